@@ -421,6 +421,7 @@ class Interp:
             if isinstance(f, NativeModel) and hasattr(type(f), "__call__"):
                 return f(*args, **kwargs)          # a callable contract stub
             if isinstance(f, types.BuiltinMethodType) and isinstance(f.__self__, str) and f.__name__ == "format":
+                self._format_concrete_fields(f.__self__, args, kwargs)
                 return SymStr((f.__self__,) + tuple(args) + tuple(kwargs.values()), fmt=f.__self__, args=args, kwargs=kwargs)
             if isinstance(f, types.BuiltinMethodType) and f.__self__ is not None and \
                     not isinstance(f.__self__, types.ModuleType):
@@ -437,6 +438,40 @@ class Interp:
             raise
         except Exception as e:  # a real exception of the real code
             raise PyRaise(e)
+
+    def _format_concrete_fields(self, fmt, args, kwargs):
+        """str.format with some symbolic fields: the concrete fields are still formatted natively, so that the exceptions python raises for them
+        ('{:<10}'.format(None) is a TypeError) are exceptions of the interpreted code too"""
+        import string
+        auto = 0
+        try:
+            parsed = list(string.Formatter().parse(fmt))
+        except ValueError as ex:
+            raise PyRaise(ex)
+        for lit, field, spec, conv in parsed:
+            if field is None:
+                continue
+            if field == "":
+                key = auto
+                auto += 1
+            elif field.isdigit():
+                key = int(field)
+            else:
+                key = field
+            if isinstance(key, int):
+                if key >= len(args):
+                    raise PyRaise(IndexError("Replacement index %d out of range for positional args tuple" % key))
+                v = args[key]
+            elif key in kwargs:
+                v = kwargs[key]
+            else:
+                continue                    # attribute / index lookups inside a field: left to the token model
+            if is_symbolic(v) or conv or (spec and "{" in spec):
+                continue
+            try:
+                format(v, spec or "")
+            except Exception as ex:
+                raise PyRaise(ex)
 
     def _container_method(self, f, args, kwargs):
         """list.append(SV) etc.: concrete containers holding symbolic elements."""
@@ -635,7 +670,14 @@ class Interp:
             return  # docstring (dropped)
         if isinstance(v, ast.Call) and isinstance(v.func, ast.Attribute) and \
                 isinstance(v.func.value, ast.Name) and v.func.value.id == "logger":
+            # the call itself is dropped (no effect on the state), but python evaluates its arguments whatever the log level:
+            # an exception raised while building the message is an exception of the code
             self.dropped.add("logger." + v.func.attr)
+            for a in list(v.args) + [k.value for k in v.keywords]:
+                try:
+                    self.eval(a, env)
+                except Unsupported:
+                    self.dropped.add("logger-argument-not-evaluated")
             return
         self.eval(v, env)
 
@@ -1045,6 +1087,12 @@ class Interp:
             a = a.value
         if isinstance(b, Leaf):
             b = b.value
+        if op is ast.Add and (isinstance(a, (str, SymStr)) or isinstance(b, (str, SymStr))):
+            # python: str + number is a TypeError, whatever the number
+            for x, y in ((a, b), (b, a)):
+                if isinstance(x, (str, SymStr)) and ((isinstance(y, SV) and y.k in ("int", "real", "bool")) or
+                                                    (not isinstance(y, (str, SymStr, SV)) and isinstance(y, (int, float, type(None))))):
+                    raise PyRaise(TypeError('can only concatenate str (not "%s") to str' % ({"real": "float"}.get(getattr(y, "k", None), getattr(y, "k", type(y).__name__)))))
         if op is ast.Add and (isinstance(a, SymStr) or isinstance(b, SymStr)):
             return SymStr((a, b))
         if op is ast.Mod and isinstance(a, str) and is_symbolic(b):
